@@ -26,7 +26,7 @@ def labF (t : α) : α :=
 def xyzToLab (xyz : Triple α) : Triple α :=
   let (x, y, z) := xyz
   let x := x / (95.047 : α)
-  let y := y / (100.0 : α)
+  let y := y / (100.000 : α)   -- the literal as it is written in the source
   let z := z / (108.883 : α)
   let fx := labF x
   let fy := labF y
